@@ -108,6 +108,92 @@ pub fn gen_big(rng: &mut Rng) -> AG {
     AG { terms, rules }
 }
 
+/// Top-down ordered grammars: productions that start with nullable non-terminals, followed by a non-terminal that
+/// reaches its first terminal only through a chain of rules defined further down, the whole thing standing behind
+/// another non-terminal (FIRST / closure fixpoints that need several passes in rule order; round-6 seeded changes).
+pub fn gen_topdown(rng: &mut Rng) -> AG {
+    fn t(terms: &mut Vec<Term>, rng: &mut Rng) -> Sym {
+        if terms.len() < TNAMES.len() {
+            terms.push(lit_term(terms.len()));
+            Sym::T(terms.len() - 1)
+        } else {
+            Sym::T(rng.below(terms.len()))
+        }
+    }
+    fn nr(rules: &mut Vec<Rule>, name: String) -> usize {
+        rules.push(Rule { name, alts: vec![], meta: Meta::default() });
+        rules.len() - 1
+    }
+    let alt = |syms: Vec<Sym>| Alt { syms, meta: Meta::default() };
+    let mut terms: Vec<Term> = vec![];
+    let mut rules: Vec<Rule> = vec![];
+    nr(&mut rules, "S".into());
+    let hdr = if rng.chance(0.75) { Some(nr(&mut rules, "H".into())) } else { None };
+    let np = if rng.chance(0.3) { 2 } else { 1 };
+    let mut s_alts = vec![];
+    for k in 0..np {
+        let p = nr(&mut rules, format!("P{}", k));
+        let mut syms = vec![match hdr {
+            Some(h) => Sym::N(h),
+            None => t(&mut terms, rng),
+        }];
+        syms.push(Sym::N(p));
+        if rng.chance(0.6) {
+            syms.push(t(&mut terms, rng));
+        }
+        s_alts.push(alt(syms));
+        let nn = rng.range(1, 2);
+        let ns: Vec<usize> = (0..nn).map(|j| nr(&mut rules, format!("N{}{}", k, j))).collect();
+        let c = nr(&mut rules, format!("C{}", k));
+        let mut psyms: Vec<Sym> = ns.iter().map(|&n| Sym::N(n)).collect();
+        psyms.push(Sym::N(c));
+        if rng.chance(0.3) {
+            psyms.push(t(&mut terms, rng));
+        }
+        rules[p].alts = vec![alt(psyms)];
+        if rng.chance(0.25) {
+            let x = t(&mut terms, rng);
+            rules[p].alts.push(alt(vec![x]));
+        }
+        for n in ns {
+            let a = t(&mut terms, rng);
+            rules[n].alts = match rng.below(4) {
+                0 => vec![alt(vec![a]), alt(vec![])],
+                1 => vec![alt(vec![]), alt(vec![a])],
+                2 => vec![alt(vec![Sym::N(n), a]), alt(vec![])],
+                _ => vec![alt(vec![])],
+            };
+        }
+        let depth = rng.range(1, 3);
+        let mut cur = c;
+        for d in 0..depth {
+            let nx = nr(&mut rules, format!("D{}{}", k, d));
+            rules[cur].alts = vec![alt(vec![Sym::N(nx)])];
+            if rng.chance(0.25) {
+                let x = t(&mut terms, rng);
+                rules[cur].alts.push(alt(vec![x, Sym::N(nx)]));
+            }
+            cur = nx;
+        }
+        let x = t(&mut terms, rng);
+        rules[cur].alts = vec![alt(vec![x])];
+        if rng.chance(0.3) {
+            let y = t(&mut terms, rng);
+            rules[cur].alts.push(alt(vec![y, x]));
+        }
+    }
+    if let Some(h) = hdr {
+        let a = t(&mut terms, rng);
+        let mut syms = vec![a];
+        if rng.chance(0.5) {
+            syms.push(t(&mut terms, rng));
+        }
+        rules[h].alts = vec![alt(syms)];
+    }
+    rules[0].alts = s_alts;
+    AG { terms, rules }
+}
+
 /// "Lists" family: the shapes people write by hand in yacc style - nullable left-/right-recursive lists, lists with
 /// separators or terminators, optional parts - placed behind and in front of other non-terminals.
 pub fn gen_lists(rng: &mut Rng) -> AG {
